@@ -1,8 +1,90 @@
-/- Driver ops for C14 (none yet). -/
+/- Driver ops for C14: AGOP accumulation, normalisation and roots (`Model/Agop.lean`) on `Float`;
+gradients either given or produced from the closed forms of C04. -/
 import Xrfmv.Drv.Common
+import Xrfmv.Drv.C04
+import Xrfmv.Model.Agop
+
+open Lean Xrfmv.Drv
 
 namespace Xrfmv.Drv.C14
+open Xrfmv.Agop
 
-def ops : List (String × Handler) := []
+abbrev Tensor3 := List (List (List Float))
+
+def getTensor3 (j : Json) (k : String) : Except String Tensor3 := do
+  let a ← j.getObjValAs? (Array (Array (Array Nat))) k
+  pure (a.toList.map fun m => m.toList.map fun r => r.toList.map bitsToFloat)
+
+/-- `torch.arange(n).split(b)`: consecutive batches of size `b` (the last one shorter). -/
+def splitIdx (n b : Nat) : List (List Nat) :=
+  let nb := (n + b - 1) / b
+  (List.range nb).map fun t => (List.range (min b (n - t * b))).map fun i => t * b + i
+
+/-- Rows of one batch, outputs × points merged (`f_grads.reshape(-1, d)` of the batch's `(f, |B|, d)` block). -/
+def batchRows (g : Tensor3) (B : List Nat) : List (List Float) :=
+  g.flatMap fun gl => B.map fun jdx => gl.getD jdx []
+
+structure Opts where
+  batch : Nat
+  centre : Bool
+  diag : Bool
+  jitter : Float
+
+def getOpts (j : Json) : Except String Opts := do
+  let b ← j.getObjValAs? Nat "batch"
+  if b == 0 then throw "bad-op: M_batch_size must be >= 1"
+  let jit ← getF j "jitter"
+  pure { batch := b, centre := ← j.getObjValAs? Bool "centre", diag := ← j.getObjValAs? Bool "diag", jitter := jit }
+
+def matJson (m : List (List Float)) : Json := toJson (m.map fun r => r.map floatToBits)
+def vecJson (v : List Float) : Json := toJson (v.map floatToBits)
+
+/-- AGOP of a gradient tensor `(f, n, d)` accumulated over consecutive batches of points, then normalised. -/
+def agopOf (g : Tensor3) (o : Opts) : Except String Json := do
+  match g with
+  | [] => throw "bad-op: no outputs"
+  | g0 :: _ =>
+    let n := g0.length
+    if n == 0 then throw "bad-op: no points"
+    let d := (g0.headD []).length
+    if d == 0 then throw "bad-op: zero-dimensional gradients"
+    if g.any (fun gl => gl.length != n || gl.any (fun r => r.length != d)) then throw "bad-op: ragged gradient tensor"
+    if g.any (fun gl => gl.any (fun r => r.any (fun x => !x.isFinite))) then throw "bad-op: non-finite gradient"
+    let batches := (splitIdx n o.batch).map (batchRows g)
+    if o.diag then
+      let raw := accumDiag d o.centre batches
+      pure <| Json.mkObj [("raw", vecJson raw), ("M", vecJson (normaliseVec o.jitter raw)),
+        ("batches", toJson batches.length)]
+    else
+      let raw := accumFull d o.centre batches
+      pure <| Json.mkObj [("raw", matJson raw), ("M", matJson (normalise o.jitter raw)),
+        ("batches", toJson batches.length)]
+
+/-- `agop`: gradients given. -/
+def opAgop : Handler := fun j => do
+  agopOf (← getTensor3 j "grads") (← getOpts j)
+
+/-- `agop_kernel`: gradients of the current predictor at the points `z` from the closed forms of C04
+(a center coinciding with a point is masked there: its own kernel term is omitted). -/
+def opAgopKernel : Handler := fun j => do
+  let b ← C04.getBlock j
+  agopOf (Grad.fgrad b.kind b.prm b.T b.x b.z b.coefs) (← getOpts j)
+
+/-- `root`: `U·diag(√max(s,0))·Uᵀ` (full) for an oracle decomposition, and its square. -/
+def opRoot : Handler := fun j => do
+  let U := (← getFss j "U").toList.map Array.toList
+  let s := (← getFs j "s").toList
+  if U.any (fun r => r.length != s.length) || U.length != s.length then throw "bad-op: U must be d x d, s of length d"
+  let r := rootFromEig U s
+  pure <| Json.mkObj [("root", matJson r), ("square", matJson (mmul r r))]
+
+/-- `rootdiag`: entrywise root of the clamped vector, and its square. -/
+def opRootDiag : Handler := fun j => do
+  let m := (← getFs j "m").toList
+  let r := rootDiag m
+  pure <| Json.mkObj [("root", vecJson r), ("square", vecJson (r.map fun x => x * x))]
+
+def ops : List (String × Handler) :=
+  [("agop", opAgop), ("agop_kernel", opAgopKernel), ("root", opRoot), ("rootdiag", opRootDiag)] ++ C04.ops
 
 end Xrfmv.Drv.C14
